@@ -300,6 +300,124 @@ pub fn oracle_kf(c: &HistoryCase, obs: &mut Obs, kf: Kf) -> Verdict {
     Verdict::Pass
 }
 
+// ---- multi-line tags inside unwrapped bodies (raw templates) ----------------------------------------------------------
+
+#[derive(Serialize, Deserialize, Clone, Hash, Debug)]
+pub struct MlCase {
+    /// indentation of the unwrap-block's tags
+    pub ind: usize,
+    /// indentation unit of the body
+    pub unit: usize,
+    /// separators inside the inner opening tag: false = one blank, true = line break + `cont` blanks
+    pub sep1_break: bool,
+    pub sep2_break: bool,
+    /// leading blanks of continuation lines
+    pub cont: usize,
+    /// the name value itself spans a line break (followed by `cont` blanks)
+    pub name_multiline: bool,
+    /// 0: the unwrap-block is removed first, then the inner element; 1: the other way round; 2: both at once, twice
+    pub chain: u8,
+    pub final_newline: bool,
+}
+
+impl MlCase {
+    pub fn name(&self) -> String {
+        if self.name_multiline {
+            format!("feature\n{}one", " ".repeat(self.cont))
+        } else {
+            "feature-one".to_string()
+        }
+    }
+    pub fn source(&self) -> String {
+        let i = " ".repeat(self.ind);
+        let b = " ".repeat(self.ind + self.unit);
+        let sep = |brk: bool| if brk { format!("\n{}", " ".repeat(self.cont)) } else { " ".to_string() };
+        let mut s = format!("before();\n{i}<tl to=\"2001-01-01 00:00:00\" unwrap-block>\n{i}if (released) {{\n{b}first();\n{b}<rm{}name=\"{}\"{}c=\"x\">\n{b}  foo();\n{b}</rm>\n{b}last();\n{i}}}\n{i}</tl>\nafter();", sep(self.sep1_break), self.name(), sep(self.sep2_break));
+        if self.final_newline {
+            s.push('\n');
+        }
+        s
+    }
+    /// KF10 signature (input and chain only): the name value spans a line break, its continuation line is indented deeper
+    /// than the unwrap-block's tags (so the dedent of the body rewrites the value), and the unwrap-block goes first
+    pub fn kf10_signature(&self) -> bool {
+        self.name_multiline && self.cont > self.ind && self.chain == 0
+    }
+}
+
+pub fn ml_oracle(c: &MlCase, obs: &mut Obs, kf10: bool) -> Verdict {
+    if kf10 && c.kf10_signature() {
+        obs.excluded("KF10:dedent-rewrites-multi-line-attribute-value");
+        return Verdict::Pass;
+    }
+    let src = c.source();
+    let t_before = epoch(2000, 6, 1, 0, 0, 0);
+    let t_after = epoch(2002, 6, 1, 0, 0, 0);
+    let mk = |now: i64, with_target: bool| Cfg { ds: "<".into(), de: ">".into(), tl_tag: "tl".into(), rm_tag: "rm".into(), now, offset: "+00:00".into(), targets: if with_target { vec![c.name()] } else { vec![] } };
+    let chain: Vec<Cfg> = match c.chain {
+        0 => vec![mk(t_after, false), mk(t_after, true)],
+        1 => vec![mk(t_before, true), mk(t_after, true)],
+        _ => vec![mk(t_after, true), mk(t_after, true)],
+    };
+    let mut cur = src.clone();
+    for (i, cfg) in chain.iter().enumerate() {
+        let next = match call_clean(&cur, cfg) {
+            Ok(o) => o,
+            Err(p) => vfail!("step {i}: clean panicked: {p}\n  text = {:?}", cur),
+        };
+        let again = match call_clean(&next, cfg) {
+            Ok(o) => o,
+            Err(p) => vfail!("step {i}: clean of the cleaned text panicked: {p}\n  text = {:?}", next),
+        };
+        if again != next {
+            vfail!("step {i}: cleaning the output again changes it\n  original = {:?}\n  once     = {:?}\n  twice    = {:?}", src, next, again);
+        }
+        let direct = match call_clean(&src, cfg) {
+            Ok(o) => o,
+            Err(p) => vfail!("step {i}: clean of the original panicked: {p}\n  src = {:?}", src),
+        };
+        if nows(&next) != nows(&direct) {
+            vfail!("step {i} (targets {:?}): step-by-step cleaning and cleaning once differ beyond whitespace\n  original     = {:?}\n  step by step = {:?}\n  at once      = {:?}", cfg.targets, src, next, direct);
+        }
+        cur = next;
+    }
+    // after the last step both elements are gone
+    if cur.contains("<tl") || cur.contains("<rm") || cur.contains("foo()") {
+        vfail!("after the whole chain a ready element is still there\n  original = {:?}\n  final    = {:?}", src, cur);
+    }
+    if !(cur.contains("first();") && cur.contains("last();") && cur.contains("before();") && cur.contains("after();")) {
+        vfail!("after the whole chain surviving code is missing\n  original = {:?}\n  final    = {:?}", src, cur);
+    }
+    obs.evals(chain.len() as u64 * 3);
+    if c.sep1_break || c.sep2_break || c.name_multiline {
+        obs.class(if c.name_multiline { "multi-line-attribute-value" } else { "multi-line-tag" });
+        obs.nontrivial_counted(|| json!({"src": src, "chain": c.chain, "final": cur}));
+    }
+    Verdict::Pass
+}
+
+fn ml_cases() -> Vec<MlCase> {
+    let mut v = vec![];
+    for ind in [0usize, 2] {
+        for unit in [2usize, 4] {
+            for sep1_break in [false, true] {
+                for sep2_break in [false, true] {
+                    for cont in [0usize, 2, 3, 8] {
+                        for name_multiline in [false, true] {
+                            for chain in 0u8..3 {
+                                for final_newline in [false, true] {
+                                    v.push(MlCase { ind, unit, sep1_break, sep2_break, cont, name_multiline, chain, final_newline });
+                                }
+                            }
+                        }
+                    }
+                }
+            }
+        }
+    }
+    v
+}
+
 pub fn check(ctx: &mut Ctx) {
     ctx.rule = "cases = (AST document, history): a history is a chain of 1..4 configurations with non-decreasing time index and growing target set; the interpreter applies clean step by step. Invariants after every step: (1) clean(cur, cfg) == cur exactly; (2) nows(cur) == nows(clean(original, cfg)); (3) list(cur, cfg) is empty and no `#id#` of an element whose opening tag lies in a removable extent under cfg remains. Non-trivial = chain length >= 2 and some later step makes more elements ready.".into();
     ctx.assume("delimiter strings occur only as parts of tags");
@@ -321,7 +439,13 @@ pub fn check(ctx: &mut Ctx) {
         ctx.assume("known finding KF2 (a removed region at the end of a code line followed by a line that starts with another removed region) is excluded by its input signature and counted");
     }
     ctx.replay_corpus(replay);
-    ctx.run_known_witnesses(|_sub, case, obs| replay_case::<HistoryCase, _>(case, obs, |c, obs| oracle_kf(c, obs, Kf::default())));
+    ctx.run_known_witnesses(|sub, case, obs| {
+        if sub == "multi-line-tags-in-bodies" {
+            replay_case::<MlCase, _>(case, obs, |c, obs| ml_oracle(c, obs, false))
+        } else {
+            replay_case::<HistoryCase, _>(case, obs, |c, obs| oracle_kf(c, obs, Kf::default()))
+        }
+    });
     ctx.random("histories", 420, 300_000, 12_000_000, gen, move |c, obs| oracle_kf(c, obs, kf));
     ctx.reshrink::<HistoryCase, _, _>("histories", move |c, obs| oracle_kf(c, obs, kf), |c, fails| {
         // fewer steps first, then a smaller document
@@ -347,9 +471,29 @@ pub fn check(ctx: &mut Ctx) {
         let doc = astgen::minimize_doc(&cur.doc, |d| fails(&HistoryCase { doc: d.clone(), spell: cur.spell.clone(), chain: cur.chain.clone() }));
         HistoryCase { doc, spell: cur.spell.clone(), chain: cur.chain.clone() }
     });
+    // tags that span several lines (the README's own layout) inside an unwrapped body
+    let kf10 = ctx.is_known("dedent-rewrites-multi-line-attribute-value");
+    if kf10 {
+        ctx.assume("known finding KF10 (the dedent of an unwrapped body rewrites a quoted attribute value that spans a line break) is excluded by its input signature and counted");
+    }
+    ctx.require_class("multi-line-tag");
+    let cases = ml_cases();
+    let n = cases.len();
+    ctx.exhaustive("multi-line-tags-in-bodies", &format!("{n} templates: an unwrap-block whose body holds an element with a multi-line opening tag (attribute separators and / or the name value span line breaks, continuation lines indented 0..8) x tag indent x body unit x 3 histories (block first, element first, both at once twice)"), cases.into_iter().map(|c| vec![c]).collect(), move |cs, obs| {
+        for c in cs {
+            if let Verdict::Fail(m) = ml_oracle(c, obs, kf10) {
+                return Some(fail_case("multi-line-tags-in-bodies", c, m));
+            }
+        }
+        None
+    });
 }
 
-pub fn replay(_sub: &str, case: &Value, obs: &mut Obs) -> Result<Verdict, String> {
+pub fn replay(sub: &str, case: &Value, obs: &mut Obs) -> Result<Verdict, String> {
+    if sub == "multi-line-tags-in-bodies" {
+        let kf10 = load_known("C19").iter().any(|k| k.signature == "dedent-rewrites-multi-line-attribute-value");
+        return replay_case::<MlCase, _>(case, obs, |c, obs| ml_oracle(c, obs, kf10));
+    }
     let kf = Kf::listed();
     replay_case::<HistoryCase, _>(case, obs, |c, obs| {
         obs.eval();
